@@ -634,6 +634,11 @@ class Frame:
         for name, v in st0.items():
             if name in self.env:
                 assert_same(f"{tag}.init.{name}", self.env[name], v, "inv")
+                # the invariant replaces the variable on the preservation path: it must be an array of the same
+                # element type, or stores into it would be modelled with the wrong conversion (complex -> float, float -> int)
+                g0 = self.env[name]
+                if isinstance(g0, Arr) and isinstance(v, Arr) and g0.kind != v.kind:
+                    c.oblige("inv", f"{tag}.init.{name}.dtype", False, {"array": g0.kind, "invariant": v.kind})
             # names first bound inside the loop have no initial value
         # ---- fork: preservation path / continuation path ----------------------------
         phase = c.fresh_bool(f"{self.fi.node.name}.{tag}.pres")
